@@ -113,8 +113,8 @@ Definition name_from_chars (cap : option nat) (cs : list N) : outcome bytes :=
       if is_char first sym_dot then
         match sym_next rest with
         | Ok (Some _) => Err T_EmptyLabel
-        | Ok None => match raw_append cap [] [0] with Some b => Ok b | None => Err E_ShortBuf end
-        | Err e => match raw_append cap [] [0] with Some b => Err e | None => Err E_ShortBuf end
+        | Ok None => match raw_append cap [] const_from_symbols_root with Some b => Ok b | None => Err E_ShortBuf end
+        | Err e => match raw_append cap [] const_from_symbols_root with Some b => Err e | None => Err E_ShortBuf end
         | Panic p => Panic p | OutOfFuel => OutOfFuel
         end
       else
@@ -220,3 +220,23 @@ Fixpoint owned_loop (fuel : nat) (cs : list N) (acc : bytes) : outcome bytes :=
   end.
 
 Definition owned_label_from_chars (cs : list N) : outcome bytes := owned_loop (S (length cs)) cs [].
+
+(* ---- human-readable serde: Serialize writes the Display text, Deserialize
+   reads a string through from_str -- except RelativeName's visitor, which
+   builds the name itself (serde_rel_checks_absolute tells whether it applies
+   the test of RelativeName::from_chars) *)
+Definition serde_de_rel (cap : option nat) (cs : list N) : outcome bytes :=
+  if serde_rel_checks_absolute then rel_from_chars cap cs else
+  match append_syms (S (length cs)) cap b_init cs with
+  | Ok (_, Some e) => Err e
+  | Ok (st, None) => b_finish st
+  | Err e => Err e | Panic p => Panic p | OutOfFuel => OutOfFuel
+  end.
+
+(* Display for RelativeName and for UncertainName *)
+Definition display_relative (n : name) : list N := display_labels n.
+Definition display_uncertain (absolute : bool) (n : name) : list N :=
+  if absolute then
+    (if uncertain_display_root_special && (match n with [] => true | _ => false end)
+     then display_name n else display_name n ++ [sym_dot])
+  else display_relative n.
